@@ -1487,14 +1487,17 @@ func redact(s *string) {
 // This is safe to log or display to users.
 func (c *Config) Redacted() *Config {
 	// Create a deep copy by marshaling and unmarshaling
-	data, err := yaml.Marshal(c)
-	if err != nil {
-		return c
-	}
-
 	redacted := &Config{}
-	if err := yaml.Unmarshal(data, redacted); err != nil {
-		return c
+	data, err := yaml.Marshal(c)
+	if err == nil {
+		err = yaml.Unmarshal(data, redacted)
+	}
+	if err != nil {
+		// Fail closed: the YAML round trip can fail (for example, a
+		// multi-line value that starts with a tab does not survive it).
+		// Never hand back the receiver itself, which would print every
+		// secret; redact a copy whose redacted slices are cloned instead.
+		redacted = c.copyForRedaction()
 	}
 
 	// Redact global TLS key
@@ -1528,6 +1531,16 @@ func (c *Config) Redacted() *Config {
 	redact(&redacted.Management.SigningPrivateKey)
 
 	return redacted
+}
+
+// copyForRedaction returns a copy of c in which every slice whose elements
+// are modified by Redacted is cloned, so that redaction never writes to c.
+func (c *Config) copyForRedaction() *Config {
+	cp := *c
+	cp.Peers = append([]PeerConfig(nil), c.Peers...)
+	cp.Listeners = append([]ListenerConfig(nil), c.Listeners...)
+	cp.SOCKS5.Auth.Users = append([]SOCKS5UserConfig(nil), c.SOCKS5.Auth.Users...)
+	return &cp
 }
 
 // HasSensitiveData returns true if the config contains any sensitive data.
